@@ -106,6 +106,10 @@ func (srv *Server) ListenAndServe() error {
 // closeListeners stops the listeners that may have been started after Close has tried to stop them,
 // which happens when the server is closed during its start-up.
 func (srv *Server) closeListeners() {
+	// Wait for a Close call that is still in progress, so it does not find its listeners already closed
+	srv.mu.Lock()
+	defer srv.mu.Unlock()
+
 	for _, l := range srv.listeners {
 		_ = l.Listener.Close()
 	}
